@@ -9,61 +9,61 @@ CHECKS = {
  "C18": ("bounded-exhaustive input enumeration against the real writer/parser (all value trees <= N nodes x indent x Sort x format; all strings <= 3 runes over a 26-rune alphabet incl. C1 / zero-width / private-use / unassigned and tag astral code points; number set), reference = structural equality + encoding/json",
          "Every value of the stated domain up to 6 (quick) / 7 (thorough) nodes, and every string up to 3 runes over the escaping-relevant alphabet in every placement (incl. map keys), is written in both formats and all indent/sort modes and parsed back; the space is enumerated completely, not sampled.",
          "Trusts encoding/json as the standard JSON parser; values larger than the bound are not covered.", "5.18"),
- "C01": ("deviation-bounded exhaustive enumeration of requests (all documents within k mutations of 9 base documents x data graphs x operation names x variable maps) executed on the real resolver under RS/AS/FS, compared with an independent reference executor (data, error paths, resolver call set)",
+ "C01": ("deviation-bounded exhaustive enumeration of requests (all documents within k mutations of 13 base documents x data graphs x operation names x variable maps) executed on the real resolver under RS/AS/FS, compared with an independent reference executor (data, error paths, resolver call set)",
          "Every request within the mutation bound is executed against fresh roots of every in-claim strategy configuration and compared position by position with a reference executor written from the June-2018 execution algorithm; quick = 1 mutation, thorough = 2.",
          "Fixed universe schema (schema variety is the subject of C13-C17); the reference executor is trusted; abstract-type dispatch is decided by C08.", "5.1"),
  "C09": ("complete enumeration of the finite inclusion table (49 source pairs x 2 orders x 3 selection kinds x 3 depths x strategy configurations) on the real resolver against the inclusion formula and the resolver call set",
          "The whole table the property quantifies over is enumerated, so within the fixed schema the verdict is complete, not bounded.",
          "Fixed universe schema and data graph; absent-and-undefaulted variables are outside the table.", "5.9"),
- "C06": ("exhaustive fault enumeration: every resolver invocation of every bounded request (documents within 1 mutation of the bases x 2 data graphs x strategies) made to fail in turn with 4 failure kinds (plain, group, *ggql.Error with extensions, one shared sentinel *ggql.Error instance; quick: sentinel pairs on the bases, thorough: all pairs), list-accessor failures alone and beside every other failure, on the real resolver, against a reference executor",
+ "C06": ("exhaustive fault enumeration: every resolver invocation of every bounded request (documents within 1 mutation of the bases x 2 data graphs x strategies) made to fail in turn with 5 failure kinds (plain, group, group wrapped with context, *ggql.Error with extensions, one shared sentinel *ggql.Error instance; quick: sentinel pairs on the bases, thorough: all pairs), list-accessor failures and output-coercion failures (a value the declared Int cannot represent) alone and beside every other failure; documents with merged response keys with every call failing at its SECOND invocation; on every run the invariant 'an error reported at p => data at p is null', on the real resolver, against a reference executor",
          "For every request in the bound and every call of its reference call log the failing run is compared with the reference: error-path multiset, null at the failing position, all other positions unchanged.",
-         "Faults keyed by (node, field); documents whose reference merges response keys are skipped (invocation multiplicity is unspecified); finding C06-F1 is matched only when stripping the 'fragment at' segment makes paths equal.", "5.6"),
- "C10": ("exhaustive single-defect injection (13 defect kinds: undefined field, field only the concrete type behind an interface defines, field written directly under a union, undeclared argument alone / beside / replacing, required argument omitted with some / no arguments at all, unknown and misplaced directive, undefined type condition inline / named) at every selection-set site of every document within 1 (thorough 2) mutations of the bases, under RS/AS/FS, on the real resolver; oracle = error present and naming the offender, resolver call/argument log, siblings equal to the defect-free reference, no value under the defective selection's key",
+         "Faults keyed by (node, field); for documents whose reference merges response keys only the error=>null invariant is demanded (invocation multiplicity is unspecified); finding C06-F1 is matched only when stripping the 'fragment at' segment makes paths equal.", "5.6"),
+ "C10": ("exhaustive single-defect injection (16 defect kinds: required argument through a variable without value, undefined field / omitted required argument under a response key a valid selection has already used, undefined field, field only the concrete type behind an interface defines, field written directly under a union, undeclared argument alone / beside / replacing, required argument omitted with some / no arguments at all, unknown and misplaced directive, undefined type condition inline / named) at every selection-set site of every document within 1 (thorough 2) mutations of the bases, under RS/AS/FS, on the real resolver; oracle = error present and naming the offender, resolver call/argument log, siblings equal to the defect-free reference, no value under the defective selection's key",
          "Every (document, site, defect) triple within the bound is executed; the verdict covers all container kinds reachable in the universe schema (object, interface-typed, union member, query/mutation root).",
          "Fixed universe schema; defective selections are aliased dfx.", "5.10"),
- "C02": ("exhaustive enumeration of per-node strategy assignments (all 2^6 node subsets x 2 mixing modes), single faults (plain error; value returned together with an error), every C10 defect injected at the root (responses compared across strategies), three decoy-value precedence probes and binding probes (all argument orders, RegisterField) over bounded common-feature requests on the real resolver; pairwise differential + reference executor",
+ "C02": ("exhaustive enumeration of per-node strategy assignments (all 2^6 node subsets x 2 mixing modes), typed Go parameters (string / named string receiving enum and String arguments), fields promoted from embedded structs, single faults (plain error; value returned together with an error), every C10 defect injected at the root (responses compared across strategies), three decoy-value precedence probes and binding probes (all argument orders, RegisterField) over bounded common-feature requests on the real resolver; pairwise differential + reference executor",
          "Pure strategies are compared pairwise and with the reference on every bounded request and single fault; every mixture of strategies over the data graph is enumerated, and precedence is decided by probes whose lower-precedence path would return decoy/sentinel values.",
          "Typed struct fields cannot hold Resolver objects, so an assignment is honoured where the Go carrier is free; messages are not compared (they name Go types).", "5.2"),
- "C08": ("complete enumeration of membership patterns (7 x 7 schema variants) x 5 binding modes x mutation-bounded documents with abstract-dispatch selections, executed under reflection on cold roots, against a reference executor with the standard applicability relation; + explicit-state exploration of request histories on ONE root (all ordered pairs over 10 x 7 documents incl. a struct-value list carrier) and of schema growth between requests (every single 'implements' / union-member extension loaded after the first round of requests)",
+ "C08": ("complete enumeration of membership patterns (7 x 7 schema variants) x 5 binding modes x mutation-bounded documents with abstract-dispatch selections, executed under reflection on cold roots, against a reference executor with the standard applicability relation; + explicit-state exploration of request histories on ONE root (all ordered pairs over 10 x 7 documents incl. a struct-value list carrier) and of schema growth between requests (every single 'implements' / union-member extension loaded after the first round of requests); binding probes with Go type names containing one another (suffix / prefix) x 5 bindings x all member and value orders",
          "All interface/union membership patterns over three object types and all binding modes are covered completely; documents within the mutation bound of 7 abstract base documents; histories and growth for the 9 corner variants (thorough: all 49).",
          "Reflection strategy only (RS-only graphs are outside the claim as documented); mixed registered-Resolver graphs not covered; finding C08-F1 (single Object.meta slot: a struct value bound first hides pointers) matched only for (second request, value-carrier warm-up, lazy binding, pair right under RegisterType).", "5.8"),
  "C11": ("explicit-state exploration of call histories: every sequence (length <= 3 quick / 4 thorough) of (operation, variables) resolve calls on ONE parsed executable, no state merging, fresh-parse differential oracle + printed form, on the real API under RS/AS/FS",
          "All call histories up to the bound over 12 documents (variables nested in literals at depth 1 and 2, list / input-object / enum variable defaults, argument order, shared fragments, directives, merged keys) chosen for the carriers of hidden AST mutation; each step is compared with a fresh parse.",
          "Fresh parse is resolved on the same root, so only the parsed request can carry state; histories longer than the bound not covered.", "5.11"),
- "C07": ("bounded-exhaustive enumeration of request texts (valid, every single fault, every single defect at every site, every truncation and token deletion, bad variable maps, unknown operation; every string <= 2 runes over a 26-rune alphabet carried into data and into an error message) x 6 layouts x 3 indents x Sort, invariant checking of every response of the real resolver",
+ "C07": ("bounded-exhaustive enumeration of request texts (valid, every single fault, every single defect at every site, every truncation and token deletion, bad variable maps, unknown operation; every string <= 2 runes over a 26-rune alphabet carried into data and into an error message; every one-line request again with a line break after each token) x 6 layouts x 3 indents x Sort, invariant checking of every response of the real resolver",
          "Every response produced inside the bound is checked against the envelope grammar, error shape, location bounds, line-of-token for errors addressing a rendered selection, rejected => no data, and an encoding/json round trip in every indent mode.",
          "encoding/json trusted; the line demand only applies where the harness can map the error path to a selection it rendered; finding C07-F1 matches only the pinned union-binding message.", "5.7"),
- "C04": ("complete enumeration of the product (9 base input types x 7 wrapper shapes x client-value menu incl. integers above int64 as Go uint / uint64 / JSON numbers x delivery modes {literal, JSON variable, 7 native Go kinds, variable default, variable over default, variable 1 and 2 levels down in list / object literals, unset and null nullable variables} each also as the SECOND resolution of one parsed executable x RS/AS/FS) on the real resolver against an independent one-directional input-coercion reference",
+ "C04": ("complete enumeration of the product (9 base input types x 7 wrapper shapes x client-value menu incl. integers above int64 as Go uint / uint64 / JSON numbers x delivery modes {literal, JSON variable, 7 native Go kinds, variable default, variable over default, variable 1 and 2 levels down in list / object literals, unset and null nullable variables, argument omitted} each also as the SECOND resolution of one parsed executable / on a root that has just served a valid request for the same argument x RS/AS/FS) on the real resolver against an independent one-directional input-coercion reference",
          "The whole finite product is enumerated: if the resolver ran, the delivered argument must conform to the declared type and denote the client's value; a clearly uncoercible value must give an error and no invocation.",
          "Over-rejection is allowed; explicit null for a defaulted input field / variable is not demanded either way; Relaxed=false.", "5.4"),
  "C05": ("complete enumeration of the product (9 leaf types x 5 wrappers x Go return-value menu incl. every list carrier x 3 positions x RS/AS/FS) on the real resolver; schema-directed walk of the encoding/json-decoded response",
          "Every cell of the product is executed; each leaf must have the JSON shape of its declared type or be null, and a clearly unrepresentable value must be null with an error at that path.",
          "encoding/json trusted; findings C05-F1 (enum members) and C05-F2 (fraction truncation) are pinned by the suite and matched by narrow predicates.", "5.5"),
- "C13": ("bounded-exhaustive enumeration of schemas on the real loader (6 bases + every single valid edit, thorough: pairs; every mutation of the 14-rule catalogue at every site and wrapper nesting incl. explicit null for non-null directive arguments; both load routes SDL and AddTypes; rule breakers arriving as a LATER load on an accepting root; ALL digraphs of directive uses among 3 (thorough 4) directive definitions and 2 directives x 2 arguments: accepted iff acyclic) against an independent rule checker, with public-API read-back and re-check of every accepted schema",
+ "C13": ("bounded-exhaustive enumeration of schemas on the real loader (6 bases + every single valid edit, thorough: pairs; every mutation of the 14-rule catalogue at every site and wrapper nesting incl. explicit null for non-null directive arguments and arguments given to an argument-less directive; both load routes SDL and AddTypes; rule breakers arriving as a LATER load on an accepting root; ALL digraphs of directive uses among 3 (thorough 4) directive definitions and 2 directives x 2 arguments: accepted iff acyclic) against an independent rule checker, with public-API read-back and re-check of every accepted schema",
          "Every schema in the bound is loaded; the independent checker decides accept/reject; accepted schemas are read back, re-checked and compared canonically; rejections must name the offender.",
          "The reference rule checker is trusted; mutants it does not itself judge ill-formed are discarded (counted); findings C13-F1..F4 are behaviours pinned by the suite, matched narrowly by rule+site.", "5.13"),
- "C15": ("bounded-exhaustive enumeration of schemas (C13 accepting side, both load routes) and of string contents (every string of <= 2, thorough 3, units over a 13-unit escaping alphabet at each of 20 description / string-constant sites; 24 numbers incl. exponent-form magnitudes and float64 extremes at each of 7 constant sites) on the real printer and parser; read-back differential oracle (printed SDL accepted, same canonical schema, fixed point); thorough adds ggqlgen -w on the bases",
+ "C15": ("bounded-exhaustive enumeration of schemas (C13 accepting side, both load routes) and of string contents (every string of <= 2, thorough 3, units over a 13-unit escaping alphabet at each of 20 description / string-constant sites; 24 numbers incl. exponent-form magnitudes and float64 extremes, and explicit null, at each of 7 constant sites; the whole-root print and the per-type prints assembled in reverse order) on the real printer and parser; read-back differential oracle (printed SDL accepted, same canonical schema, fixed point); thorough adds ggqlgen -w on the bases",
          "Every schema/string in the bound is loaded, printed, re-loaded in a fresh root, read back through the public API and compared canonically; the second print must equal the first.",
-         "Descriptions compared as the parser normalises them; null defaults not generated; per-type SDL() not separately re-parsed; ggqlgen -e not yet exercised.", "5.15"),
- "C16": ("exhaustive enumeration of arrangements of bounded definition sets on the real loader: all permutations in one document, all assignments to <= 3 successive loads with reference-closed prefixes, every single/pair move of a member into an extend block placed before or after its target; the same for ill-formed sets (one rule-breaking extension unit each), which every arrangement must refuse; all-agree differential oracle (accept, canonical read-back with directive defaults filled, root types, introspection data)",
+         "Descriptions compared as the parser normalises them; null defaults not generated; '= null' defaults are not told from no default (not demanded); finding C15-F1: ggqlgen cannot write an undeclared schema that 'extend schema' added to (no exported accessor).", "5.15"),
+ "C16": ("exhaustive enumeration of arrangements of bounded definition sets on the real loader: all permutations in one document, all assignments to <= 3 successive loads with reference-closed prefixes, every single/pair move of a member into an extend block placed before or after its target; the same for ill-formed sets (one rule-breaking extension unit each), which every arrangement must refuse; all-agree differential oracle (accept, canonical read-back with directive defaults filled, root types, order of the type and directive tables, introspection data, a request per operation root)",
          "For each definition set every arrangement in the three families is loaded into a fresh root and must agree with the canonical arrangement.",
-         "Definition sets of 5-6 units (thorough adds the C13 bases); partitions with unresolvable prefixes are outside the claim; ggqlgen multi-file ordering not yet exercised.", "5.16"),
+         "8 definition sets of 4-7 units incl. names differing only in case and an implicit schema extended in place (thorough adds the C13 bases); partitions with unresolvable prefixes are outside the claim; ggqlgen multi-file ordering not yet exercised.", "5.16"),
  "C14": ("explicit-state exploration of load histories on the real API, no merging: every history of length <= 3 (thorough 4) over a menu of valid and failing documents (9 failure classes x 5-7 kinds of preceding valid content, each such content also as a valid load of its own, AddTypes route) from 3 initial roots, plus every reader-fault offset of every valid document; before/after and failure-deleted differential oracles over SDL, canonical read-back, introspection and requests through every name lookup table (fields, enum values, input fields, union members, directives, types); a document valid on its own must get the same verdict after failed loads as in the failure-deleted history",
          "Every history within the bound is replayed on a fresh root; each failing load must leave every observable unchanged and the final state must equal that of the history with the failing loads deleted.",
          "Observables are those reachable through the public API; quick restricts length-3 histories to those starting with two of the valid documents or the first two failures.", "5.14"),
- "C17": ("bounded-exhaustive enumeration of schemas (C13 accepting side incl. explicit schema blocks naming only some roots beside objects called Mutation / Subscription) x introspection selections (full __schema in 3 includeDeprecated modes; __type for every name and an unknown name, literal and variable) x application strategies (reflection, Resolver, installed root resolver) on the real resolver against an independent reference computed from the abstract schema",
+ "C17": ("bounded-exhaustive enumeration of schemas (C13 accepting side incl. explicit schema blocks naming only some roots beside objects called Mutation / Subscription, a root type implementing an interface, an implicit schema extended) x introspection selections (full __schema in 3 includeDeprecated modes; __type for every name and an unknown name, literal and variable) x application strategies (reflection, Resolver, installed root resolver) on the real resolver against an independent reference computed from the abstract schema",
          "Every (schema, strategy, query) in the bound is executed and compared field by field with refintrospect; answers must also agree across strategies since each is compared with the same reference.",
          "Wrapper types: only kind and ofType demanded; string defaults may be reported raw (pinned); default deprecation reason with or without embedded quotes.", "5.17"),
- "C19": ("explicit-state breadth-first search of the subscription registry through the real API: all canonical registry states with <= 2 live subscriptions over the full alphabet and <= 3 over a reduced one (thorough 3 / 4), every operation from every state (successor = shortest-path replay on a fresh root + 1 operation), with subscription requests parsed afresh and through one parsed executable per request text, compared with a reference registry on every transition; all unmerged histories of length 4 (thorough 5) with a probe publish as cross-check of the state merge",
+ "C19": ("explicit-state breadth-first search of the subscription registry through the real API: all canonical registry states with <= 2 live subscriptions over the full alphabet and <= 3 over a reduced one (thorough 3 / 4), every operation from every state (successor = shortest-path replay on a fresh root + 1 operation), with subscription requests parsed afresh and through one parsed executable per request text, subscribers giving their own variable values, compared with a reference registry on every transition; all unmerged histories of length 4 (thorough 5) with a probe publish as cross-check of the state merge",
          "Every (state, operation) transition in the bound is executed on the real root: deliveries (who, what message, in which order), returned counts, removal and exactly-once clean-up, silence after unsubscribe.",
          "Canonical state = ordered list of (selection, id, kind, remaining failure script), justified because the implementation's only registry state is that slice; matching semantics are the harness subscriber's.", "5.19"),
- "C12": ("stateless model checking of the real implementation: every interleaving with <= 2 (thorough 3) preemptions of 2-3 goroutines resolving menu requests against one cold root, under a hand-written cooperative scheduler that owns every Mutex operation of pkg/ggql through a build-time sync shim (go build -overlay); oracle = response equals the request's response alone on a cold root, no deadlock (also of a single request against itself), and NO DATA RACE decided on every explored schedule by vector-clock happens-before checking of every field / package-variable access of pkg/ggql (memory-access overlay generated by mc/cmd/mkinstr); plus a free-running race-detector pass of the same bodies",
-         "All schedules within the preemption bound are executed for all request pairs (and binding-heavy triples) under reflection (3 binding modes), Resolver and root-resolver roots; the happens-before race check covers every schedule explored; the free-running race pass (32 goroutines x 150 cold roots per configuration) is sampling, labelled so, and kept for accesses the source instrumentation cannot attribute (aliased slices, map internals).",
+ "C12": ("stateless model checking of the real implementation: every interleaving with <= 2 (thorough 3) preemptions of 2-3 goroutines resolving menu requests against one cold root, under a hand-written cooperative scheduler that owns every Mutex operation of pkg/ggql through a build-time sync shim (go build -overlay); oracle = response equals the request's response alone on a cold root, no deadlock (also of a single request against itself, and with resolvers that wait for each other through the scheduler's Await), and NO DATA RACE decided on every explored schedule by vector-clock happens-before checking of every field / package-variable access of pkg/ggql (memory-access overlay generated by mc/cmd/mkinstr); plus a free-running race-detector pass of the same bodies",
+         "All schedules within the preemption bound are executed for all request pairs (and binding-heavy triples) under reflection (3 binding modes), Resolver and root-resolver roots and a root whose Subscription type was added by AddTypes after the load; the happens-before race check covers every schedule explored; the free-running race pass (32 goroutines x 150 cold roots per configuration) is sampling, labelled so, and kept for accesses the source instrumentation cannot attribute (aliased slices, map internals).",
          "Lock-only choice points, justified by data-race freedom, which is checked on each explored schedule; 2-3 goroutines under the scheduler; if the instrumented build fails the check falls back to the plain overlay and says so (cap).", "5.12"),
  "C20": ("stateless model checking of the real implementation: every interleaving with <= 2 (thorough 3) preemptions of 2-3 goroutines calling publish / subscribe / unsubscribe on one registry (6 initial registries x all pairs and triples of single-call threads and pairs of two-call threads x Resolver / reflection events), under the cooperative scheduler over the sync shim; oracle = the stated guarantees from logical-clock logs, final registry explained by some real-time-consistent sequential order, full linearizability (brute force) for failure-free histories; no data race on any explored schedule (vector-clock happens-before checking over the memory-access overlay); plus the free-running race-detector pass",
          "All schedules within the preemption bound are executed and every one is checked against the guarantees the property lists; detection was demonstrated on a change that cleans up failed subscribers without the identity re-check (double clean-up found in 7630 schedules).",
          "Lock-only choice points; preemption bounded, not unbounded; happens-before race check on every explored schedule, free-running race pass is sampling.", "5.20"),
- "C03": ("bounded-exhaustive enumeration of inputs on the real entry points: all token strings <= 4 (thorough 5) over a 40-token executable alphabet under three resolver strategies, <= 4 (5) over a 36-token SDL alphabet, <= 5 (6) over a value alphabet; every single-token edit of a corpus of 34 requests and 14 schemas; all byte strings <= 2 (3) over 23 special bytes in 5 placements; all rune strings <= 2 over 21 code-point classes in every text position and through the value writers on Go-built values; all digraphs of directive uses over 3 directive definitions; all fragment spread graphs over 3 fragments; every reader fault kind at every Read offset; every variable-shape assignment; printing of whatever loaded. Each case numbered and announced through a shared mapping, so fatal errors and hangs are observations and the worker is restarted past them",
+ "C03": ("bounded-exhaustive enumeration of inputs on the real entry points: all token strings <= 4 (thorough 5) over a 40-token executable alphabet under three resolver strategies, <= 4 (5) over a 36-token SDL alphabet, <= 5 (6) over a value alphabet; every single-token edit of a corpus of 34 requests and 14 schemas; all byte strings <= 2 (3) over 23 special bytes in 5 placements; all rune strings <= 2 over 21 code-point classes in every text position and through the value writers on Go-built values; all digraphs of directive uses over 3 directive definitions; all fragment spread graphs over 3 fragments; length ladders (15 token classes x 24 lengths around 16 ... 65536 in every reading position); 6 self-referential input schemas x 8 request shapes; every reader fault kind at every Read offset; every variable-shape assignment; printing of whatever loaded. Each case numbered and announced through a shared mapping, so fatal errors and hangs are observations and the worker is restarted past them",
          "Within the stated lengths the input spaces are enumerated completely; the oracle is only that the call returns.",
          "Hang = case counter stalled for 60 s; deep-nesting ladders beyond the corpus are not enumerated.", "5.3"),
 }
